@@ -281,6 +281,14 @@ def content_labels(case):
     return labs, nt
 
 
+def require_blocks(case, present, who):
+    """Everything that was supplied to the builder must come back: a block per supplied item."""
+    missing = [n for n in sq.expected_blocks(case) if n not in present]
+    if missing:
+        raise Violation("missing-block", f"{who}: no block {missing} although calls {case['calls']} supplied it "
+                                         f"(blocks present: {sorted(present)})")
+
+
 def check_content(case):
     labs, nt = content_labels(case)
     with contextlib.ExitStack() as stack:
@@ -290,6 +298,7 @@ def check_content(case):
         dec = decode_checked(w)
         blocks = dec["blocks"]
         calls = set(case["calls"])
+        require_blocks(case, blocks, "file")
         nruns = check_main_header(case, w, blocks)
         if "pix" in calls:
             check_pixels(case, w, blocks)
@@ -349,6 +358,7 @@ def check_reader(case):
                 out = {n: f.read_data_block(n) for n in names}
         unparsed = [str(c.message) for c in caught if "Unable to parse" in str(c.message)]
         need(not unparsed, "reader-unparsed", f"reader could not parse a block it wrote itself: {unparsed[:2]}")
+        require_blocks(case, out, "reader")
         mh = out[("", "main_header")]
         need(mh.title == case["title"] and mh.full_filename == (w.path or "in_memory") and mh.nfiles == nruns,
              "reader-string", f"reader: main header {mh.title!r}, {mh.full_filename!r}, nfiles={mh.nfiles}")
